@@ -39,6 +39,13 @@ def tasks(tier):
     for cfg in ("NeoHooke(bulk)", "Volumetric", "NeoHooke(mu,bulk)"):
         ts.append(("re-assembly %s" % cfg, "run_included", dict(modname="c01", fname="run_reassembly", kwargs=dict(cfg=cfg), oid="C14.O1",
                                                               why="force and moment balance are shown for the stress of the current state; a body that carries stress over from an earlier evaluation loses them")))
+    # "-p times the integrated current area vector, which vanishes on a closed surface": the loaded faces are those the boundary region selects --
+    # the outline, or with only_surface=False every face of every cell (interior faces twice, once from each side, so that they cancel)
+    from . import c13
+    for ct, fn_, el_, n_ in c13.TABLES:
+        if ct in ("quad", "hexahedron"):
+            ts.append(("loaded faces %s" % ct, "run_included", dict(modname="c13", fname="run_selection", kwargs=dict(cell_type=ct, elname=el_, nnodes=n_), oid="C14.O10", select_oid="C13.O4",
+                                                                   why="the pressure resultant is minus p times the area vector of exactly the selected faces: a face dropped or kept against the documented selection changes it")))
     ts.append(("multi-point constraints and contact", "run_included", dict(modname="c01", fname="run_multipoint", kwargs={}, oid="C14.O7",
                                                                           why="self-equilibrated constraint forces in every configuration (skip tuples, centre point among the points, contact with zero initial gap)")))
     # body forces, mass and pressure resultants rest on the array forms; on a uniform-grid region (one evaluated cell, broadcast to all cells)
